@@ -112,6 +112,8 @@ def rule_r1(ctx) -> List[R.Inst]:
     insts = []
     want = ["concat", "sort_values", "diff", "dropna", "set_axis", "groupby", "sum", "idxmax"]
     core = [n for n in names if n in want]
+    # an idempotent stage applied twice in a row is that stage (np.diff leaves no NaN, a .dropna() after it drops nothing)
+    core = [n for i_, n in enumerate(core) if not (i_ and core[i_ - 1] == n and n in ("dropna", "sort_values"))]
     if core == want:
         insts.append(R.ok(rid, "pipeline:stages", file, rets[0].lineno, idiom=" -> ".join(want)))
     else:
